@@ -29,7 +29,7 @@ func (w *world) buildAuth() wasp.AuthenticationHandler {
 			f = append(f, "")
 		}
 		m := f[2]
-		if m == "" {
+		if m == "" || m == "-" { // "-": a third field that is present but empty ("user:hash:")
 			m = auth.DefaultMountPoint
 		}
 		w.authTab = append(w.authTab, authRow{f[0], f[1], m})
@@ -53,7 +53,9 @@ func (w *world) buildAuth() wasp.AuthenticationHandler {
 		f := strings.SplitN(r, ":", 3)
 		// the file holds the SHA-256 hex of the password (what fileHandler compares against)
 		line := f[0] + ":" + fmt.Sprintf("%x", sha256.Sum256([]byte(f[1])))
-		if len(f) == 3 && f[2] != "" {
+		if len(f) == 3 && f[2] == "-" {
+			line += ":"
+		} else if len(f) == 3 && f[2] != "" {
 			line += ":" + f[2]
 		}
 		b.WriteString(line + "\n")
